@@ -388,6 +388,8 @@ def _exh_images():
         "backing": [{"kind": "build", "desc": dict(base, clusters=[D(1, "zero", 1)])},
                     {"kind": "build", "desc": dict(base, clusters=[D(0, "data", 2), D(1, "data", 2), D(2, "data", 2), D(3, "data", 2)])}],
         "special": [{"kind": "build", "desc": dict(base, clusters=[D(0, "comp", 1), D(1, "zero_prealloc", 1), D(2, "data", 1)])}],
+        # two preallocated zero clusters side by side (one multi-cluster write reuses both)
+        "prealloc2": [{"kind": "build", "desc": dict(base, clusters=[D(0, "zero_prealloc", 1), D(1, "zero_prealloc", 1), D(3, "data", 1)])}],
     }
 
 
@@ -442,10 +444,12 @@ def fam_exhaustive_faults(tier, tag, seed=1):
     out = []
     hs = [h for h in _EXH[2] if not any(o["op"] == "r" for o in h["ops"])]
     nf = 18 if tier == "quick" else 30
-    for v in ("plain", "backing", "special"):
+    for v in ("plain", "backing", "special", "prealloc2"):
         for h in hs:
             ops = [_exh_step(o) for o in h["ops"]] + [{"op": "flush"}]
-            tail = [{"op": "recover", "retries": 4}, rd, {"op": "shrink"}, rd, {"op": "flush"}, {"op": "reopen"}, rd]
+            # after recovery the faulted operations are issued once more (a caller that retries)
+            again = [_exh_step(o) for o in h["ops"] if o["op"] in "wd"]
+            tail = [{"op": "recover", "retries": 4}, rd] + again + [rd, {"op": "shrink"}, rd, {"op": "flush"}, {"op": "reopen"}, rd]
             ks = range(nf) if tier != "quick" else sorted(rng.sample(range(nf), 6))
             for k in ks:
                 out.append(S.mk(f"{tag}-{v}-{_exh_code(h['ops'])}-f{k}", geo, imgs[v],
@@ -1214,6 +1218,13 @@ def check_C17(chk):
                           punch_unsupported=True))
     scens += fam_growth(chk.tier, chk.seed, "c17g", 4 if chk.tier == "quick" else 24, faults=8 if chk.tier == "quick" else 2)
     scens += fam_exhaustive_faults(chk.tier, "c17e", seed=chk.seed)
+    # (d) a fault at each request of the first qcow2_prep_io() (loading the L1 and refcount tables); the call is repeated
+    for vi, (v, im) in enumerate(_exh_images().items()):
+        for k in range(4):
+            geo_ = dict(cb=10, ro=4, bsb=9, vclusters=4, params={"l2": [9, 1024], "rb": [9, 1024]})
+            rd_ = {"op": "read", "gb": 0, "n": 8}
+            scens.append(S.mk(f"c17prep-{v}-{k}", geo_, im, [rd_, {"op": "write", "gb": 3, "n": 3}, rd_, {"op": "flush"}, rd_, {"op": "reopen"}, rd_],
+                              prep_fault=k))
     # (b) hole punching unsupported AND a fault at each request (the zero-write fallback itself can fail); after recovery the
     # caches are dropped and the touched slices are used again before the final reopen
     for h in range(2 if chk.tier == "quick" else 16):
